@@ -129,3 +129,13 @@ claim("C15",
       "nor is span containment or the slice grammar.",
       "Trusted: rustc MIR; Jsonnet precedence table in rules/c15.py.",
       "DESIGN.md §2 C15")
+claim("C07",
+      "origin analysis (with base-argument identity) of layer contributions and cache fields; per-layer visibility decision tables over MIR",
+      "Decides three structural necessary conditions of C07, not the algebraic laws over values: (R1) lhs+rhs builds its layers as the ordered "
+      "concatenation clone(rhs.self), clone(rhs.supers), clone(lhs.self), clone(lhs.supers) and nothing else, and field removal stacks its "
+      "marker on the unchanged sequence (associativity of + on layers is then associativity of list concatenation); (R2) every derived object "
+      "gets a fresh fields_order and unchecked asserts, cloned layers a fresh env, cloned expression fields a fresh thunk (so self/super are "
+      "late-bound to the final object); (R3) the per-layer visibility decision of has_visible_field over {absent, default, hidden, "
+      "forced-visible, removed}, the field-state mapping and the visible filter. Layer-index arithmetic and value-level associativity are not decided.",
+      "Trusted: rustc MIR; the Jsonnet visibility rule transcribed in rules/c07.py. The merge arithmetic of get_fields_order (Removed depths) stays with the tests.",
+      "DESIGN.md §2 C07")
